@@ -31,6 +31,10 @@ def gen_scenario(rng, index):
         progs.append(gen.variant_of(rng, rng.choice(progs[:n_base]), f"r{index}t{len(progs)}"))
     if rng.random() < 0.3:
         progs.append(gen.near_variant_of(rng, rng.choice(progs), f"r{index}t{len(progs)}"))
+    if rng.random() < 0.15:
+        pair = gen.comment_lookalike_pair(rng, rng.choice(progs), f"r{index}t{len(progs)}", f"r{index}t{len(progs) + 1}")
+        if pair:
+            progs.extend(pair)
     texts = []
     for p in progs:
         texts.append({"tid": p.tid, "text": p.text, "splitters": p.splitters,
@@ -39,7 +43,7 @@ def gen_scenario(rng, index):
     nodes = [fleet.gen_env(rng) for _ in range(n_nodes)]
     n_ops = rng.choice([60, 120, 200, 300, 400])
     restarts_left = rng.choice([0, 1, 2, 4])
-    bursts_left = rng.choice([0, 0, 1, 2])
+    bursts_left = rng.choice([0, 0, 1, 2, 3])
     n_slots = rng.choice([2, 3, 4])
     intended = [[None] * n_slots for _ in range(n_nodes)]
     ops = []
@@ -76,7 +80,7 @@ def gen_scenario(rng, index):
             # a long run of distinct units through one evaluator (caches filling up, counters crossing thresholds);
             # a few of them are then asked again elsewhere
             bursts_left -= 1
-            ops.append({"op": "burst", "n": n, "slot": s, "count": rng.choice([300, 1500, 5000]), "base": rng.randrange(10 ** 6),
+            ops.append({"op": "burst", "n": n, "slot": s, "count": rng.choice([300, 2000, 2000, 8000, 8000, 20000, 40000]), "base": rng.randrange(10 ** 6),
                         "recheck": [rng.randrange(300) for _ in range(6)], "on": rng.randrange(n_nodes)})
         elif r < 0.31:
             order = list(range(n_nodes))
@@ -126,10 +130,6 @@ class Runner:
         construct = {}                         # text idx -> set of outcomes across nodes
         info = {"ops": 0, "calls": 0, "keys": 0, "cross_process_keys": 0, "anomalies": 0, "envs": set()}
         step = -1
-
-        def envsig(nd):
-            e = nd.env
-            return (e["hashseed"], e["LC_ALL"], e["LANG"], e["PYTHONUTF8"], e["cwd"])
 
         def observe(ni, slot, fields, res, step):
             nd = nodes[ni]
@@ -401,7 +401,7 @@ def master(tier, seed):
                 viol_recs.append(rec)
     except HarnessError as e:
         harness.append(str(e))
-    paths, known_hits, seen = [], [], set()
+    paths, known_hits, seen, unreproduced = [], [], set(), []
     for rec in sorted(viol_recs, key=lambda r: r["index"]):
         sig = signature_of(rec["scenario"], rec["vclass"])
         key = json.dumps(sig, sort_keys=True)
@@ -421,7 +421,12 @@ def master(tier, seed):
         if rc == 1:
             paths.append(path)
         else:
-            harness.append(f"replay of {path} in a fresh interpreter did not reproduce (rc={rc}): {so[-300:]} {se[-300:]}")
+            # never reported as a violation; only fatal if nothing else reproduces (see driver.finish)
+            unreproduced.append(f"replay of {path} in a fresh interpreter did not reproduce (rc={rc}): {so[-200:]} {se[-200:]}")
+            try:
+                os.replace(path, path + ".unreproduced")
+            except OSError:
+                pass
     wall = time.monotonic() - t0
     runs = agg.get("runs", 0)
     hashseeds = {json.loads(e)["hashseed"] for e in envs}
@@ -461,4 +466,4 @@ def master(tier, seed):
     print(f"C01 {tier}: deployments={runs} ops={agg.get('ops', 0)} calls={agg.get('calls', 0)} keys={agg.get('keys', 0)} "
           f"cross_process_keys={agg.get('cross_process_keys', 0)} hash_seeds={len(hashseeds)} violations_raw={agg.get('violations', 0)} "
           f"reported={len(paths)} wall={wall:.1f}s")
-    return driver.finish(PROP, paths, known_hits, harness)
+    return driver.finish(PROP, paths, known_hits, harness, unreproduced)
